@@ -9,6 +9,7 @@ def run(ctx):
     out = [T.docs_noninterference_rule(ctx.syn, "C15"), T.docs_slot_rule(ctx.syn, "C15"), T.layout_rule(m["ts_rs"], "C15", rule="C15.R2b"),
            T.docs_containment_rule(m["ts_rs_macros"], ctx.syn, "C15"), T.docs_separator_rule(ctx.syn, m["ts_rs"], "C15")]
     out.append(T.docs_init_rule(ctx.syn, "C15"))
+    out.append(T.impl_assembly_rule(ctx.syn, "C15", "C15.R8"))
     from rules import merge_rules as MR
     out.append(MR.merge_verbatim_rule(m["ts_rs"], "C15", rule="C15.R6"))
     for fs in ctx.featuresets():
